@@ -8,6 +8,7 @@ pub mod call;
 pub mod meta;
 pub mod intercept;
 pub mod routing;
+pub mod deadline;
 
 /// Shared event recorder so that events survive a panic or hang of the run.
 #[derive(Clone, Default)]
@@ -27,6 +28,7 @@ pub fn gen(lab: &str, seed: u64, tier: &str) -> Vec<Value> {
         "call" => call::gen(seed, tier),
         "meta" => meta::gen(seed, tier),
         "intercept" => intercept::gen(seed, tier),
+        "deadline" => deadline::gen(seed, tier),
         _ => { eprintln!("unknown lab {lab}"); std::process::exit(2) }
     }
 }
@@ -39,6 +41,7 @@ fn run_one(lab: &str, stim: &Value, rec: &Rec) {
         "meta" => meta::run(stim, rec),
         "intercept" => intercept::run(stim, rec),
         "routing" => routing::run(stim, rec),
+        "deadline" => deadline::run(stim, rec),
         _ => { eprintln!("unknown lab {lab}"); std::process::exit(2) }
     }
 }
